@@ -68,7 +68,7 @@ def check_bound_variables(model: Model, modname: str, rr: RuleResult):
                 if rname.startswith("<param"):
                     rr.unknown(f"{edge.site()}: rule name is an unbound parameter")
                     continue
-                rr.bad(edge.fi, edge.call, f"edge uses rule {rname!r} that {modname} never defines: ninja fails to load the graph",
+                rr.bad_shape(edge.fi, edge.call, f"edge uses rule {rname!r} that {modname} never defines: ninja fails to load the graph",
                        construct=f"{short(edge.call, 100)} [rule {rname}]")
                 continue
             seen_rules.add(id(rule))
@@ -81,7 +81,7 @@ def check_bound_variables(model: Model, modname: str, rr: RuleResult):
             extra = set(keys) - need
             where = f"{edge.fi.qualname} -> rule {rname}"
             if missing:
-                rr.bad(edge.fi, edge.call, f"rule '{rname}' expands ${', $'.join(sorted(missing))} but the edge binds only {sorted(keys)}: "
+                rr.bad_shape(edge.fi, edge.call, f"rule '{rname}' expands ${', $'.join(sorted(missing))} but the edge binds only {sorted(keys)}: "
                        f"ninja substitutes the empty string silently", construct=f"{where}: unbound ${', $'.join(sorted(missing))}")
             if extra:
                 rr.bad(edge.fi, edge.call, f"edge binds {sorted(extra)} which rule '{rname}' never expands: the value never reaches the command",
@@ -257,7 +257,7 @@ def r09b(model: Model, rr: RuleResult):
     if inputs is not None and callee_tail(inputs) == "_input_files" if isinstance(inputs, ast.Call) else False:
         rr.ok("glyphmap edge inputs = _input_files(font_config, master)")
     else:
-        rr.bad(fi, b[0], "glyphmap edge no longer depends on the per-source intermediates (_input_files)", construct=short(b[0]))
+        rr.bad_shape(fi, b[0], "glyphmap edge no longer depends on the per-source intermediates (_input_files)", construct=short(b[0]))
     # _input_files covers every format family with the final intermediate of its chain
     ifi = model.func("nanoemoji", "_input_files")
     conds = {}
@@ -354,6 +354,23 @@ def r09c(model: Model, rr: RuleResult):
                    "options given by flag (which such a comparison re-applies to the old file) never reach the worker", construct="_write_config_for_build: path that skips config.write")
     else:
         rr.bad(wfi, wfi.node, "_write_config_for_build no longer writes the config", construct="_write_config_for_build: no config.write")
+
+
+# exceptions that signal "this representation does not fit / this attribute or key is not there", not a failed build step
+CONTROL_FLOW_EXCEPTIONS = {"OverflowError", "AttributeError", "KeyError", "IndexError", "StopIteration", "LookupError", "ZeroDivisionError"}
+
+
+def _handler_provides_alternative(h: ast.ExceptHandler) -> bool:
+    """The handler body only binds names / returns a value (no pass, no bare logging, no continue that skips work)."""
+    if not h.body:
+        return False
+    for st in h.body:
+        if isinstance(st, (ast.Assign, ast.AnnAssign, ast.AugAssign)):
+            continue
+        if isinstance(st, ast.Return) and st.value is not None:
+            continue
+        return False
+    return True
 
 
 # reviewed handlers that deliberately recover: (function fq, exception type text) -> reason
@@ -453,6 +470,9 @@ def r09d_impl(model: Model, rr: RuleResult):
                         for t in types:
                             rr.exceptions_used.append(f"{fq} except {t}: {HANDLER_EXCEPTIONS[(fq, t)]}")
                         rr.ok(f"{fq}: except {ty} recovers (reviewed)")
+                    elif all(t.split(".")[-1] in CONTROL_FLOW_EXCEPTIONS for t in types) and _handler_provides_alternative(h):
+                        # an arithmetic / lookup exception used as a test, with a fallback that yields a value for the same result: no failure is hidden
+                        rr.ok(f"{fq}: except {ty} selects an alternative computation ({short(h.body[0], 50)})")
                     else:
                         rr.bad(owner or mod, h, f"except {ty} swallows the error without re-raising: a failing step would look successful",
                                construct=f"{fq}: except {ty}: {short(h.body[0], 60)}")
@@ -521,7 +541,7 @@ def r09e_impl(model: Model, rr: RuleResult):
             if after is None:
                 rr.ok(f"write_font._write: {short(c, 50)} is the last action")
             else:
-                rr.bad(wfi, c, f"_write does work after saving ({after})", construct=f"_write: after {short(c, 40)} comes {after}")
+                rr.bad_shape(wfi, c, f"_write does work after saving ({after})", construct=f"_write: after {short(c, 40)} comes {after}")
 
 
 FS_PROBES = {"exists", "is_file", "stat", "lstat", "getmtime", "getsize", "getctime", "samefile", "isfile", "cmp", "lexists"}
